@@ -149,7 +149,7 @@ PROPERTIES = {
                        "sorters and the access registration.",
     },
     "C08": {
-        "rules": indicators.RULES,
+        "rules": indicators.RULES + [driver.r_bound_asserted],
         "thorough": [self_test_rule("C08")],
         "level_text": "For each indicator class (and each indicator built inside an objective) and each configuration, the "
                       "expression equated with the indicator variable is reconstructed and compared, in a deep canonical form "
@@ -305,7 +305,7 @@ LEVEL_TEXT_ADDENDA = {
            "weight mode and each declared one otherwise (R-OBJ-HANDED); the makespan objective is the horizon variable, which bounds "
            "every task end (R-HORIZON). The objective variable of every built-in objective is defined by the schedule as an equality, not merely bounded (R-IND-DEF, R-MINMAX); the bound the incremental loop takes as a proof of optimality is written only by an indicator's own constructor and Objective.__init__ (R-BOUND-PROVENANCE). With a user horizon exactly `_horizon <= horizon` is asserted (R-HORIZON, exact): the variable the makespan objective minimises stays free below the bound. The stream of build_equivalent_weighted_objective is the two definitions only (R-WEIGHTED). Bounds given by the caller are asserted on the indicator variable (R-BOUND-ASSERTED); the caller's weight is the objective's weight (R-WEIGHT: eleven recorded findings).",
     "C08": " Also: the horizon the utilisation divides by is the horizon delivered with the solution (R-HORIZON-REPORT), and the "
-           "horizon variable bounds every task end (R-HORIZON: makespan). An indicator's constructor asserts its definition and nothing else (R-OWN-EXACT): the value reported is a measurement, not a constraint.",
+           "horizon variable bounds every task end (R-HORIZON: makespan). An indicator's constructor asserts its definition and nothing else (R-OWN-EXACT): the value reported is a measurement, not a constraint. Bounds the caller declares on an indicator are asserted on its variable on every path where they are given, a bound of 0 included (R-BOUND-ASSERTED, see C15).",
     "C10": " Also: a constraint asserts into its own assertion list only (R-OWN-ASSERTIONS); the force-N cardinalities are decided "
            "semantically over (count, n, size). A constraint acts through its own assertion list, not through a side effect on another element (R-EFFECT-ONLY: the two buffer accesses are recorded findings).",
     "C11": " Also: the stored busy pair is tied to the task span with delay-in / early-out (R-BUSY-BIND), every task end is "
